@@ -33,7 +33,7 @@ CHECKS = {
          'Breadth-first search from every input of length <= 2 over a 10-byte alphabet, all sequences of read / write0 / write1 / '
          'get_output / get_output(allow_incomplete) up to depth 10 (12 thorough) on FixedIO and StandardIO (stdin/stdout replaced), '
          'states de-duplicated by the full attribute dictionary; plus all 2^17-1 written bit strings of length <= 16, all texts of <= 6 bytes that can spell escape sequences (StandardIO echo), the output side of the keyboard device, all 65 793 '
-         'inputs of length <= 2 read to EOF and beyond, all keyboard event scripts of <= 3 events over 32 event kinds (4-event '
+         'inputs of length <= 2 read to EOF and beyond, inputs of 255..65 538 bytes (boundary lengths around powers of two) read to EOF with and without interleaved writes, all keyboard event scripts of <= 3 events over 32 event kinds (4-event '
          'scripts in thorough) x 40 reads via both constructors, and BrokenIO call sequences.',
          'A device state is its attribute dictionary (equal attributes, equal futures). Same-tic keyboard events are expected in script order.',
          'DESIGN.md section 3 C17'),
@@ -44,7 +44,7 @@ CHECKS = {
          'foreign exception (ValueError, BrokenPipeError, the builtin EOFError), KeyboardInterrupt raised by the device, and a SIGINT made pending inside the call by a pure-C '
          'callable (deterministic), on featured / fast / native flat, hybrid, paged, ring and measurement modes. Exception '
          'mapping, op count, device-side calls, last-ops list and the memory read back through the retained DeviceMemory must '
-         'equal R1 after exactly the ops executed before the stop.',
+         'equal R1 after exactly the ops executed before the stop. The interactive window route: every sequence of event batches (<= 3 events, thorough 4, over 10 event kinds; two consecutive pumps with batches <= 2) through PygameWindow.pump_events, WindowKeyEventSource and InteractiveScreen presents on a stand-in pygame module - a batch holding a window-close event ends in KeyboardInterrupt and marks the window closed, other batches never raise and queue the documented key codes in order.',
          'Asynchronous delivery of a real signal at other eval-breaker points of the pure-Python loops cannot be scheduled '
          'deterministically and is outside the explored set; op count is unobservable when run() raises.',
          'DESIGN.md section 3 C18'),
@@ -97,10 +97,10 @@ CHECKS = {
          '?: x operator combination in every position, non-associative comparison chains (must be rejected), 1500 literal forms '
          '(decimal/hex/binary, every printable char, every escape, all 256 \\xHH in both cases, strings up to 3 chars), and every '
          'pair tree x every partition of its three leaves into literal / constant / macro parameter / label / rep iterator '
-         '(value must not depend on the resolution stage), negative ternary conditions at every stage, a bare label on either side of every operator, and ~1500 expressions of one program sharing four constants (using a constant under an operator never changes it); each value is observed completely (320 bits + sign) through '
+         '(value must not depend on the resolution stage; every other rep case sits in a macro whose parameter is spelled like the iterator), negative ternary conditions at every stage, a bare label on either side of every operator, and ~1500 expressions of one program sharing four constants (using a constant under an operator never changes it); each value is observed completely (320 bits + sign) through '
          'assembled op words and compared with Python-int evaluation.',
          'R5 holds an independent transcription of the pinned precedence table (the repository documents it only in the grammar). '
-         'Expressions with an undefined sub-expression or more than 300 bits are skipped (counted).',
+         'Expressions with an undefined sub-expression or more than 300 bits are skipped (counted). Workers run under a 4 GiB address-space limit and a CPU limit; a worker that dies is a violation.',
          'DESIGN.md section 3 C12'),
  'C03': ('exploration',
          'exhaustive enumeration of macro skeletons x identifier-collision assignments x file splits vs an independent AST inliner (image equality through the real assembler)',
@@ -188,9 +188,9 @@ CHECKS = {
          'DESIGN.md section 3 C11'),
  'C13': ('model_checking',
          'explicit-state search over assemble-call histories in one process (forked children of a never-assembled parent); probe bytes vs a fresh interpreter process',
-         'Every history of depth <= 2 over 27 assemble actions (thorough: also depth 3 over a 9-action core) (stl programs at two widths, no-stl, werror, a parse failure '
+         'Every history of depth <= 2 over 28 assemble actions (thorough: also depth 3 over a 9-action core) (stl programs at two widths, no-stl, werror, a parse failure '
          'inside nested namespaces, a lexing error, an unknown macro after the cache was filled, recursion overflow with depth 5, depths '
-         '2000 and 4000, programs defining top-level constants, programs behind a 1- or 2-file stl prefix with one to three user files, a 60 000-label program, a warning-raising program at a fixed path with and without warnings-as-errors, a rep-heavy program, the stl under other short names, another user short name, another directory) followed by seventeen '
+         '2000 and 4000, programs defining top-level constants, programs behind a 1- or 2-file stl prefix with one to three user files, a 60 000-label program, a warning-raising program at a fixed path with and without warnings-as-errors, a rep-heavy program, the stl under other short names, a reduced stl built by trimming the list the public get_stl_paths() returned, another user short name, another directory) followed by seventeen '
          'probe assemblies (different widths, versions, werror, programs using the constants\' names as labels, expressions nested 400 / 700 deep, a 600-term expression inside a macro with the default and a raised depth (F24)), rotated so that every probe directly follows every last action: the .fjm and .fjd bytes of every probe must equal those of a brand-new '
          'interpreter process (two reference processes with different hash seeds and directories must agree as well).',
          'Each history runs in a forked child of a parent that imported flipjump but never assembled. The process-global state key is reported, not used to merge histories.',
@@ -201,7 +201,7 @@ CHECKS = {
          'garbage, continue, the three continue-all spellings incl. mixed case, reads of words / unaligned / unmapped addresses / hex, bit '
          'and byte variables over a data segment with distinctive bits, help, unknown commands, empty lines, quit; running out = EOF) x '
          'every breakpoint subset of size <= 2 of the visited addresses + a never-visited one x 12 programs per width, through '
-         'fjm_run.run(breakpoint_handler=...), plus sessions whose breakpoints are asked for by label (all subsets of 3 existing + 3 unknown labels) and by substring sets (incl. regular-expression metacharacters) - twice on one debug-file path with other addresses -, and reads of the word the program will fault on: pause list (address, ops executed), values shown by reads, quit => keyboard-interrupt at '
+         'fjm_run.run(breakpoint_handler=...), plus sessions whose breakpoints are asked for by label (all subsets of 3 existing + 3 unknown labels) and by substring sets (incl. regular-expression metacharacters) - twice on one debug-file path with other addresses -, reads of the last word of the address space (a segment ends exactly at 2^w), and reads of the word the program will fault on: pause list (address, ops executed), values shown by reads, quit => keyboard-interrupt at '
          'the pause op count, otherwise output / IO calls / cause / op count / final memory equal the undebugged reference run.',
          'Messages are parsed only for addresses, op counts and values. Label / substring breakpoints are resolved in C16.',
          'DESIGN.md section 3 C15'),
